@@ -525,13 +525,24 @@ func (s *segment) findEntry(offset int64) (*entry, error) {
 		return entry.Offset >= offset
 	})
 	if err != nil {
-		return nil, err
+		return nil, s.indexReadError(err)
 	}
 	if idx == n {
 		return nil, ErrEntryNotFound
 	}
 	err = s.Index.ReadEntryAtFileOffset(entry, int64(idx*entryWidth))
-	return entry, err
+	return entry, s.indexReadError(err)
+}
+
+// indexReadError maps the error of a read of the segment's index, which is
+// closed with the segment, to ErrSegmentReplaced if the segment was replaced,
+// as ReadAt does for the log file: a reader holding on to a replaced segment
+// re-initializes instead of failing. The caller holds the segment's lock.
+func (s *segment) indexReadError(err error) error {
+	if err == ErrSegmentClosed && s.replaced {
+		return ErrSegmentReplaced
+	}
+	return err
 }
 
 // findEntryByTimestamp returns the first entry whose timestamp is greater than
